@@ -12,6 +12,10 @@ mod awrite;
 #[cfg(feature = "io")]
 mod bio;
 mod alloc;
+#[cfg(feature = "full")]
+mod sweep;
+#[cfg(feature = "std")]
+mod drops;
 #[cfg(feature = "std")]
 mod types;
 #[cfg(all(feature = "alloc", feature = "half"))]
@@ -88,6 +92,8 @@ fn main() {
         Some("cases") => cmd_cases(&args[1..]),
         Some("one") => cmd_one(&args[1..]),
         Some("gen") => gen::cmd_gen(&args[1..]),
+        #[cfg(feature = "full")]
+        Some("sweep") => sweep::cmd_sweep(&args[1..]),
         _ => { eprintln!("usage: vh cases|one|gen ..."); 2 }
     };
     std::process::exit(code)
